@@ -4,11 +4,12 @@ import importlib, json, os, sys
 HERE = os.path.dirname(os.path.dirname(os.path.abspath(__file__)))
 sys.path[:0] = ['/repo/src', HERE]
 ALL = [f'C{i:02d}' for i in range(1, 21)]
+READY = set(open(os.path.join(HERE, 'rv', 'props', 'READY')).read().split())
 NA_REASON = {}
 checks, na = [], []
 for pid in ALL:
     path = os.path.join(HERE, 'rv', 'props', pid.lower() + '.py')
-    if not os.path.exists(path):
+    if not os.path.exists(path) or pid not in READY:
         na.append({'property_id': pid, 'reason': NA_REASON.get(pid, 'monitor not built yet in this session (runtime monitoring applies; see DESIGN.md section 4)')})
         continue
     m = importlib.import_module('rv.props.' + pid.lower())
